@@ -1655,7 +1655,8 @@ class Engine:
 
     BUILTIN_FUNCS = {"len", "isinstance", "type", "tuple", "sorted", "set", "abs", "max", "min", "sum", "all", "any",
                      "range", "enumerate", "map", "filter", "float", "int", "pow", "callable", "dict", "list", "str",
-                     "getattr", "hasattr", "super", "bool", "round", "ceil", "log", "zip", "iter", "next", "id"}
+                     "getattr", "hasattr", "super", "bool", "round", "ceil", "log", "zip", "iter", "next", "id",
+                     "prod"}        # prod: math.prod (`from math import prod`), the exact product of a list
     BUILTIN_CLASSES = {"dict", "tuple", "list", "int", "float", "str", "set", "bool", "slice"}
     EXC_NAMES = {"KeyError", "ValueError", "TypeError", "AttributeError", "ZeroDivisionError", "Exception",
                  "NotImplementedError", "IndexError", "AssertionError"}
